@@ -34,4 +34,86 @@ PROPS = {
         "mandatory_probes": ["reached_logged", "logon_while_logged"],
         "assumptions": ASSUME,
     },
+    "C07": {
+        "scenarios": ["C07"],
+        "level": "exploration",
+        "quick_runs": {"C07": 3000},
+        "thorough_runs": {"C07": 400000},
+        "thorough_wall": 900,
+        "rule": "each run = one adversarial inbound history without an acceptable Logon (1-16 steps from {ResendRequest over generated ranges, "
+                "TestRequest, Heartbeat, Logout, refused Logon, damaged Logon, application, unknown type, idle up to 10x the largest interval}) x role x "
+                "store mode (empty / earlier session / parallel authenticated session on the same shared memory.Storage) x buffer size x seeded schedule; "
+                "oracle on every message captured from the unauthenticated connection; distinct = distinct context-switch-sequence hash; non-trivial = "
+                "a preemption or fault happened",
+        "mandatory_probes": ["store_prepopulated", "long_idle"],
+        "assumptions": ASSUME,
+    },
+    "C14": {
+        "scenarios": ["C14"],
+        "level": "exploration",
+        "quick_runs": {"C14": 3000},
+        "thorough_runs": {"C14": 400000},
+        "thorough_wall": 900,
+        "rule": "each run = a logged-on session (role x buffer x interval) receiving 1-6 bursts of 1-5 back-to-back messages from {TestRequest with a "
+                "generated hostile TestReqID (1-300 bytes, any byte but SOH), Heartbeat, application message, Logon-while-logged (order marker), stray "
+                "Heartbeat with 112}, optionally segmented, under a seeded schedule; oracle: exactly one byte-identical echo per request, in request "
+                "order, before replies to later messages; distinct = distinct context-switch-sequence hash; non-trivial = a preemption happened",
+        "mandatory_probes": ["testrequests", "burst"],
+        "assumptions": ASSUME,
+    },
+    "C16": {
+        "scenarios": ["C16"],
+        "level": "exploration",
+        "quick_runs": {"C16": 4000},
+        "thorough_runs": {"C16": 500000},
+        "thorough_wall": 900,
+        "rule": "each run = session state (waiting for logon / logged on / TestRequest outstanding / logout sent) x role x buffer x interval, then "
+                "1-5 invalid administrative messages from {A,5,0,1,2} x {wrong CheckSum, wrong BodyLength, non-numeric 108/7/16, non-numeric 34, "
+                "missing 34, not permitted in this state}, each settled and compared with the model (one Reject, 45 or 371=34, state unchanged, contexts "
+                "alive), then valid follow-up traffic; distinct = distinct context-switch-sequence hash; non-trivial = a preemption happened; "
+                "model_states_visited lists the (type, damage, state) triples reached",
+        "mandatory_probes": ["follow_up_checked", "probe_outstanding"],
+        "assumptions": ASSUME,
+    },
+    "C10": {
+        "scenarios": ["C10"],
+        "level": "exploration",
+        "quick_runs": {"C10": 3000},
+        "thorough_runs": {"C10": 400000},
+        "thorough_wall": 900,
+        "rule": "each run = (3/4) a logged-on session (role x buffer x interval) that first produces 0-30 outbound messages of mixed origin "
+                "(application sends, TestRequest echoes, Rejects, timer heartbeats), then receives 1-5 ResendRequests with ranges from {inside, single, "
+                "open-ended 16=0, to-last, end beyond last, wholly beyond, inverted, begin 0, all}; the peer-side wire log of first transmissions is the "
+                "reference model; or (1/4) a Logon whose 34 is drawn around the expected number on a fresh or pre-counted store; distinct = distinct "
+                "context-switch-sequence hash; non-trivial = a preemption happened; model_states_visited lists range shapes reached",
+        "mandatory_probes": ["resend_in_range", "logon_gap"],
+        "assumptions": ASSUME,
+    },
+    "C15": {
+        "scenarios": ["C15"],
+        "level": "exploration",
+        "quick_runs": {"C15": 3000},
+        "thorough_runs": {"C15": 400000},
+        "thorough_wall": 900,
+        "rule": "each run = a logged-on session (role x buffer x interval x CloseTimeout in {0,1ms,1s,30s}) ended by {peer Logout, local Logout then the "
+                "peer's answer after a generated delay, local Stop with the peer's answer at {same instant, 1 ms, CloseTimeout-1ms, a generated time, never}}; "
+                "oracle counts Logouts on the wire, EventLogout, IsLogged and the exact simulated instant at which Session.Context() is cancelled; distinct = "
+                "distinct context-switch-sequence hash; non-trivial = a preemption happened; model_states_visited lists (answer mode, CloseTimeout) pairs",
+        "mandatory_probes": ["peer_logout", "local_logout", "stop_deadline_path", "stop_answer_path"],
+        "assumptions": ASSUME,
+    },
+    "C19": {
+        "scenarios": ["C19"],
+        "level": "exploration",
+        "quick_runs": {"C19": 3000},
+        "thorough_runs": {"C19": 400000},
+        "thorough_wall": 900,
+        "rule": "each run = a logged-on session (role x buffer x interval) with 0-3 all-types and 0-4 per-type outgoing handlers and as many incoming "
+                "handlers registered in a drawn order, each outgoing handler refusing at drawn call numbers (fault tape), the MessageStorage wrapper failing "
+                "0-2 drawn Save calls, 1-4 concurrent sender tasks x 1-5 messages of 2 types, 0-5 inbound messages of 4 types, timer traffic; oracle joins the "
+                "store call log, the handler call log and the peer-side wire capture by sequence number; distinct = distinct context-switch-sequence hash; "
+                "non-trivial = a preemption happened or a fault (failed Save / refusal) fired",
+        "mandatory_probes": ["blocked_send", "store_save_failed", "handler_refused_outgoing", "inbound_dispatch_checked", "outgoing_handlers_ran"],
+        "assumptions": ASSUME,
+    },
 }
